@@ -214,6 +214,58 @@ def reference_replace(tree, path, rkind):
     return ast.fix_missing_locations(tree)
 
 
+def splice_then_replace(ctx, mi, src, locs):
+    """A node taken from ANOTHER annotated tree is spliced in at location b, the tree is annotated
+    again, then location a (where that node came from) is replaced: a's own node must be hit."""
+    import copy
+
+    from doctrans.ast_utils import RewriteAtQuery, annotate_ancestry
+    from doctrans.source_transformer import ast_parse
+
+    cands = [l for l in locs if l["kind"] in ("annassign", "attr_annassign") and not ambiguous(l, locs)
+             and not l.get("redeclared_in_block")]
+    # (different scopes: in one scope the spliced copy and its origin would share one location)
+    pairs = [(a, b) for a in cands for b in cands if a is not b and b["lineno"] < a["lineno"] and a["path"][:-1] != b["path"][:-1]]
+    if not pairs:
+        return
+    a, b = ctx.rng.choice(pairs)
+    plain = ast.parse(src)
+    fa, fb = loc_features(plain, a), loc_features(plain, b)
+    if any(f.get(k) for f in (fa, fb) for k in ("func_precedes", "alias_before_target", "same_name_assigned_in_block_before", "same_name_as_parent")) \
+            or fa["depth"] >= 3 or fb["depth"] >= 3:
+        return  # the single replacements themselves are listed findings there
+    base = dict(op=OP, sequence="splice_reannotate_replace", depth=fa["depth"], target_kind=a["kind"], dest_depth=fb["depth"])
+    replay = {"src": src, "path": a["path"], "dest": b["path"], "exists": True, "sequence": True}
+    try:
+        donor = ast_parse(src, skip_docstring_remit=True)
+        tree = ast_parse(src, skip_docstring_remit=True)
+        from doctrans.ast_utils import find_in_ast
+
+        node_a = find_in_ast(list(a["path"]), donor)
+        if node_a is None:
+            return
+        rw1 = RewriteAtQuery(search=list(b["path"]), replacement_node=copy.deepcopy(node_a))
+        tree = rw1.visit(tree)
+        annotate_ancestry(tree)
+        marker = ast.AnnAssign(target=ast.Name("ZQ_MARK", ast.Store()), annotation=ast.Name("int", ast.Load()), value=None, simple=1)
+        rw2 = RewriteAtQuery(search=list(a["path"]), replacement_node=marker)
+        tree = rw2.visit(tree)
+        ast.fix_missing_locations(tree)
+    except Exception as e:
+        ctx.report_exception(e, base, replay, stage="splice_sequence")
+        return
+    ctx.event("splice_sequences")
+    exp = ast.parse(src)
+    na, pa, _ = resolve(a["path"], exp)
+    nb, pb, _ = resolve(b["path"], exp)
+    pb.body[pb.body.index(nb)] = copy.deepcopy(na)
+    pa.body[pa.body.index(na)] = ast.AnnAssign(target=ast.Name("ZQ_MARK", ast.Store()), annotation=ast.Name("int", ast.Load()), value=None, simple=1)
+    ast.fix_missing_locations(exp)
+    if ast.dump(tree) != ast.dump(exp):
+        ctx.report(dict(base, field="replace", tag="second_replacement_hit_another_node", param=".".join(a["path"]),
+                        expected=ast.unparse(exp)[:200], observed=ast.unparse(tree)[:200]), replay)
+
+
 def ambiguous(loc, locs):
     """the path, or any prefix of it, is defined more than once in its scope"""
     dups = [l["path"] for l in locs if l["dup"]]
@@ -237,6 +289,7 @@ def run(ctx):
             ctx.feature("kind=" + loc["kind"])
             ctx.feature("depth={}".format(len(loc["path"])))
             one_lookup(ctx, mi, src, loc, True)
+        splice_then_replace(ctx, mi, src, locs)
         # non-existent locations: mutate an existing path
         for _ in range(3):
             if not locs:
